@@ -389,17 +389,36 @@ def _deadline_value(v, have):
         n = chain(inner)[1]
         return n[0] if n else "?"
     if is_call(v, "core::iter::Iterator::min") and v[3]:
-        # `[a, b].into_iter().flatten().min()`: the minimum over the deadlines that are present
-        src = v[3][0]
-        arr = [x for x in walk(src) if x[0] == "agg" and x[1] == "array"]
-        if any(is_call(x, "core::iter::Iterator::flatten") for x in walk(src)) and len(arr) == 1:
-            names = []
-            for o in arr[0][5]:
-                n_ = [n for n in chain(peel(o))[1] if n in have]
-                names += n_
-            if sorted(names) == sorted(have):
-                present = [n for n in names if have[n] == "Some"]
-                return "min" if len(present) == 2 else (present[0] if present else "none")
+        # the minimum over the deadlines that are present: `[a, b].into_iter().flatten().min()`,
+        # `a.into_iter().chain(b).min()` (an Option iterates over its value, if any)
+        def sources(x, depth=0):
+            x = peel(x)
+            if depth > 6 or not isinstance(x, tuple):
+                return None
+            if is_call(x, "core::iter::IntoIterator::into_iter", "core::iter::Iterator::by_ref", "Option::<T>::iter", "Option::<T>::into_iter") and x[3]:
+                return sources(x[3][0], depth + 1)
+            if is_call(x, "core::iter::Iterator::chain") and len(x[3]) == 2:
+                a_, b_ = sources(x[3][0], depth + 1), sources(x[3][1], depth + 1)
+                return None if a_ is None or b_ is None else a_ + b_
+            if is_call(x, "core::iter::Iterator::flatten") and x[3]:
+                arr = [y for y in walk(x[3][0]) if y[0] == "agg" and y[1] == "array"]
+                if len(arr) != 1:
+                    return None
+                out = []
+                for o in arr[0][5]:
+                    n_ = [n for n in chain(peel(o))[1] if n in have]
+                    if len(n_) != 1:
+                        return None
+                    out += n_
+                return out
+            n_ = chain(x)[1]
+            if len(n_) == 1 and n_[0] in have:
+                return [n_[0]]
+            return None
+        names = sources(v[3][0])
+        if names is not None and sorted(names) == sorted(have):
+            present = [n for n in names if have[n] == "Some"]
+            return "min" if len(present) == 2 else (present[0] if present else "none")
         return "?"
     if is_call(v, "Option::<T>::or") and len(v[3]) == 2:
         # a.or(b): a if present, else b
@@ -575,12 +594,33 @@ def rule_const(R):
     # the handshake adopts the server keep-alive
     call, hb, hcode = roles.handshake(f)
     v = [x for x in field_stores(f, "keepalive_interval") if x[0].name == hcode.name]
-    ok = len(v) == 1 and any(x[0] == "downcast" and x[2] == "ServerKeepAlive" for x in walk(v[0][2])) and \
-        any(x[0] == "field" and x[2] == "keepalive_interval" for a in phi_alts(v[0][2]) for x in walk(a))
+    ok = len(v) == 1 and any(x[0] == "downcast" and x[2] == "ServerKeepAlive" for x in walk(v[0][2]))
+    if ok and not any(x[0] == "field" and x[2] == "keepalive_interval" for a in phi_alts(v[0][2]) for x in walk(a)):
+        # the store does not carry the configured value as an alternative: then it must be the conditional form
+        # `if let Some(s) = server_keepalive { keepalive_interval = .. }` -- performed exactly when the CONNACK carried
+        # the property, the configured value staying in place otherwise
+        sbb = v[0][1]
+        cond = False
+        for wb in hcode.switches:
+            if wb not in hcode.reachable:
+                continue
+            si = hcode.switch_info(wb)
+            if si["enum"] == "core::option::Option" and si["edges"].get("Some") is not None \
+                    and any(x[0] == "downcast" and x[2] == "ServerKeepAlive" for x in walk(si["subject"])) \
+                    and hcode.must_pass([0], [sbb], via_edges=[(wb, si["edges"]["Some"])])[0]:
+                # and nothing else decides about the store between that test and the store
+                cond = hcode.must_pass([si["edges"]["Some"]], hcode.returns, via_blocks=[sbb])[0]
+        ok = cond
     R.ob("const/server-keepalive", ok,
          "the effective keep-alive is the configured one, replaced by the CONNACK's Server Keep Alive when present", where=hb.span)
     a = roles.connack_property_arms(f).get("ServerKeepAlive")
-    okh = a is not None and a["unconditional"] and any(is_call(peel(v), "Duration::from_secs") for v in roles.arm_values_for(a, RUNTIME, "keepalive_interval"))
+    avs = roles.arm_values_for(a, RUNTIME, "keepalive_interval") if a is not None else []
+    okh = a is not None and a["unconditional"] and (
+        any(is_call(peel(av), "Duration::from_secs") for av in avs)
+        # the arm may keep the raw seconds and the handshake convert them where it applies them
+        or (len(v) == 1 and is_call(peel(v[0][2]), "Duration::from_secs")
+            and any(peel(av)[0] == "agg" and peel(av)[3] == "Some" and any(x[0] == "downcast" and x[2] == "ServerKeepAlive" for x in walk(av))
+                    for av in avs)))
     R.ob("const/server-keepalive-honoured", okh,
          "a Server Keep Alive in the CONNACK always replaces the configured keep-alive (converted from seconds)",
          where=a["span"] if a else hb.span)
@@ -588,7 +628,10 @@ def rule_const(R):
     noa = roles.method(f, RUNTIME, "note_outbound_activity")
     ka_store = [bb for (b, bb, vv, sp) in field_stores(f, "keepalive_interval") if b.name == hcode.name]
     cs = outq.calls_to(f, hcode, noa)
-    okn = bool(cs) and bool(ka_store) and all(hcode.must_pass([0], [c.bb], via_blocks=ka_store)[0] for c in cs) and \
+    okn = bool(cs) and bool(ka_store) and all(
+        hcode.must_pass([0], [c.bb], via_blocks=ka_store)[0]
+        # a conditional store (`if let Some(..) = server_keepalive`): no store can follow the (re)start of the schedule
+        or not (set(ka_store) & hcode.reach([c.bb], include_start=False)) for c in cs) and \
         hcode.must_pass(ka_store, [r for r in hcode.returns], via_blocks=[c.bb for c in cs] + [bb for bb in hcode.returns if False])[0] is not None
     R.ob("const/schedule-after-connack", okn, "the ping schedule is (re)started after the effective keep-alive is known", where=hb.span)
 
